@@ -539,9 +539,58 @@ func disconnectFamily(c *Case) {
 		fields = append(fields, fld(hotline.FieldOptions, []byte{0, byte(opt)}))
 	}
 	optName := map[int]string{-1: "none", 0: "option-0", 1: "temporary", 2: "permanent", 3: "option-3"}[opt]
+	optBan := opt == 1 || opt == 2
 	c.Dist("disconnect/" + optName)
 	c.Note("option", optName)
 	c.Note("target", targetAddr)
+	// ---- an entry the target's address already has (placed after the target logged in): an expired
+	// temporary ban that was never pruned, a running temporary ban, or a permanent one.  The new
+	// request must overwrite it (newest ban decides); a plain disconnect must leave it alone.
+	var pre banEntry
+	preKind := "none"
+	seedAt := time.Now()
+	switch k := r.Intn(100); {
+	case k < 40:
+	case k < 62:
+		pre = banEntry{Listed: true, Until: seedAt.Add(-[]time.Duration{10 * time.Second, time.Minute, 31 * time.Minute, time.Hour, 48 * time.Hour}[r.Intn(5)])}
+		preKind = "expired-temporary"
+	case k < 84:
+		pre = banEntry{Listed: true, Until: seedAt.Add([]time.Duration{5 * time.Minute, 10 * time.Minute, 29 * time.Minute, 2 * time.Hour}[r.Intn(4)])}
+		preKind = "running-temporary"
+	default:
+		pre = banEntry{Listed: true, Perm: true}
+		preKind = "permanent"
+	}
+	var histPre string
+	if pre.Listed {
+		var p *time.Time
+		if !pre.Perm {
+			u := pre.Until
+			p = &u
+		}
+		if r.Bool() {
+			// as left behind by an earlier server run: written into the ban file, then loaded
+			b, _ := yaml.Marshal(map[string]*time.Time{targetIP: p})
+			os.WriteFile(banPath, b, 0644)
+			nb, err := mobius.NewBanFile(banPath)
+			if err != nil {
+				c.Violation("ban-file-unloadable", "a ban file written with the server's own YAML library does not load")
+				return
+			}
+			ts.Bans = nb
+			ts.Srv.BanList = nb
+		} else if err := ts.Bans.Add(targetIP, p); err != nil {
+			c.Violation("ban-add-failed", "BanFile.Add failed")
+			return
+		}
+		if pre.Perm {
+			histPre = fmt.Sprintf("a %s p 0 ", hx([]byte(targetIP)))
+		} else {
+			histPre = fmt.Sprintf("a %s t %d ", hx([]byte(targetIP)), pre.Until.UnixNano())
+		}
+	}
+	c.Dist("existing-entry/" + preKind)
+	c.Note("existing_entry", preKind)
 	t0 := time.Now()
 	admin.Conn.Feed(encTran(tranOf(110, 4242, fields...)))
 	rep, ok := admin.ReplyTo(4242, 5*time.Second)
@@ -551,23 +600,35 @@ func disconnectFamily(c *Case) {
 		c.Violation("disconnect-not-acknowledged", "the administrator's disconnect request got no success reply")
 		return
 	}
-	// ---- ban entry
+	// ---- ban entry: the newest request decides; without a ban option the existing entry stays
 	listed, until := ts.Bans.IsBanned(targetIP)
-	wantListed := opt == 1 || opt == 2
-	if listed != wantListed {
-		c.Note("listed", listed)
-		c.Violation("ban-entry-wrong", fmt.Sprintf("disconnect with %s: ban list entry present=%v, expected %v", optName, listed, wantListed))
+	final := pre
+	if opt == 1 {
+		final = banEntry{Listed: true}
+	} else if opt == 2 {
+		final = banEntry{Listed: true, Perm: true}
+	}
+	wantListed := final.Listed
+	unchanged := listed == pre.Listed && (!pre.Listed || (pre.Perm && until == nil) || (!pre.Perm && until != nil && until.Equal(pre.Until)))
+	if optBan && pre.Listed && unchanged && !(opt == 2 && pre.Perm) {
+		c.Note("stored", fmt.Sprint(listed, until))
+		c.Violation("reban-dropped", fmt.Sprintf("a %s ban of an address that already has a ban-list entry (%s) was silently dropped: the entry is unchanged", optName, preKind))
 		return
 	}
-	if opt == 2 && until != nil {
-		c.Violation("ban-entry-wrong", "a permanent ban was stored with an expiry")
+	if listed != wantListed {
+		c.Note("listed", listed)
+		c.Violation("ban-entry-wrong", fmt.Sprintf("disconnect with %s (existing entry: %s): ban list entry present=%v, expected %v", optName, preKind, listed, wantListed))
+		return
+	}
+	if final.Listed && final.Perm && until != nil {
+		c.Violation("ban-entry-wrong", fmt.Sprintf("disconnect with %s (existing entry: %s): the entry must be permanent but has an expiry", optName, preKind))
+		return
+	}
+	if final.Listed && !final.Perm && until == nil {
+		c.Violation("ban-entry-wrong", fmt.Sprintf("disconnect with %s (existing entry: %s): the entry must be temporary but is permanent", optName, preKind))
 		return
 	}
 	if opt == 1 {
-		if until == nil {
-			c.Violation("ban-entry-wrong", "a temporary ban was stored as permanent")
-			return
-		}
 		lo, hi := t0.Add(30*time.Minute), t1.Add(30*time.Minute)
 		if until.Before(lo) || until.After(hi) {
 			c.Note("until_minus_request", until.Sub(t0).String())
@@ -577,7 +638,16 @@ func disconnectFamily(c *Case) {
 		// the model's constant
 		dur := c.O.Ask("banduration")
 		c.Corr("ban-duration", fmt.Sprint(int64(hotline.BanDuration)), dur, false)
+	} else if !optBan && pre.Listed && !unchanged {
+		c.Note("stored", fmt.Sprint(listed, until))
+		c.Violation("ban-entry-wrong", "a disconnect without a ban option changed the address's existing ban entry")
+		return
 	}
+	if final.Listed && !final.Perm {
+		final.Until = *until
+	}
+	// refused at the door iff the final entry is permanent or still running
+	wantRefused := final.Listed && (final.Perm || final.Until.After(time.Now().Add(3*time.Second)))
 	for _, ip := range []string{otherIP, adminIP} {
 		if l, _ := ts.Bans.IsBanned(ip); l {
 			c.Violation("ban-hit-other-address", "banning one address listed another address")
@@ -593,11 +663,11 @@ func disconnectFamily(c *Case) {
 		kind   string
 	}
 	kns := []kn{
-		{addr: fmt.Sprintf("%s:%d", targetIP, 60001), id: 9000, expect: wantListed, kind: "login"},
+		{addr: fmt.Sprintf("%s:%d", targetIP, 60001), id: 9000, expect: wantRefused, kind: "login"},
 		{addr: fmt.Sprintf("%s:%d", otherIP, 60002), id: 9100, expect: false, kind: "login"},
 	}
 	if r.Chance(50) {
-		kns = append(kns, kn{addr: fmt.Sprintf("%s:%d", targetIP, 60003), id: 9200, expect: wantListed, kind: "nothing"})
+		kns = append(kns, kn{addr: fmt.Sprintf("%s:%d", targetIP, 60003), id: 9200, expect: wantRefused, kind: "nothing"})
 	}
 	for i := range kns {
 		if kns[i].kind == "login" {
@@ -664,7 +734,7 @@ func disconnectFamily(c *Case) {
 			return
 		}
 	}
-	if wantListed {
+	if optBan {
 		trs, _, _ := splitTransactions(target.Conn.Written()[tgBase:])
 		gotNotice := false
 		want := tempBanText
@@ -683,10 +753,10 @@ func disconnectFamily(c *Case) {
 	}
 	now := time.Now()
 	var bans []banSpec
-	if wantListed {
-		b := banSpec{IP: targetIP, Perm: opt == 2}
-		if until != nil {
-			b.Until = until.UnixNano()
+	if final.Listed {
+		b := banSpec{IP: targetIP, Perm: final.Perm}
+		if !final.Perm {
+			b.Until = final.Until.UnixNano()
 		}
 		bans = append(bans, b)
 	}
@@ -696,9 +766,9 @@ func disconnectFamily(c *Case) {
 		c.Note("knock_written", short(o.Written))
 		c.Note("knock_registered", o.Registered)
 		if k.expect {
-			if why := refusedExactly(o, opt == 2); why != "" {
+			if why := refusedExactly(o, final.Perm); why != "" {
 				if o.Notice == nil {
-					c.Violation("ban-not-enforced", "after a disconnect with the "+optName+" ban option the address was not refused: "+why)
+					c.Violation("ban-not-enforced", "after a disconnect with the "+optName+" ban option (existing entry: "+preKind+") the address was not refused: "+why)
 				} else {
 					c.Violation("ban-refusal-malformed", why)
 				}
@@ -730,14 +800,14 @@ func disconnectFamily(c *Case) {
 			optArg = fmt.Sprint(opt)
 		}
 		at := t0.UnixNano()
-		if until != nil {
+		if opt == 1 && until != nil {
 			at = until.UnixNano() - int64(hotline.BanDuration)
 		}
-		h := c.O.Ask(fmt.Sprintf("banhist %s %d d %s %s %d%s", hx([]byte(k.addr)), now.UnixNano(), hx([]byte(targetIP)), optArg, at, map[bool]string{true: " r", false: ""}[restart]))
+		h := c.O.Ask(fmt.Sprintf("banhist %s %d %sd %s %s %d%s", hx([]byte(k.addr)), now.UnixNano(), histPre, hx([]byte(targetIP)), optArg, at, map[bool]string{true: " r", false: ""}[restart]))
 		c.Corr("handler-decision", fmt.Sprintf("refused=%d", b2i(o.Notice != nil)), strings.Fields(h + " x")[0], false)
 	}
-	c.Nontrivial(fmt.Sprintf("%s|%s|%v|%d", optName, strings.Join(ips, ","), restart, len(kns)))
-	c.Sample(map[string]any{"family": "disconnect-ban", "option": optName, "restart_before_reconnect": restart, "reconnects": len(kns)})
+	c.Nontrivial(fmt.Sprintf("%s|%s|%s|%v|%d", optName, preKind, strings.Join(ips, ","), restart, len(kns)))
+	c.Sample(map[string]any{"family": "disconnect-ban", "option": optName, "existing_entry": preKind, "restart_before_reconnect": restart, "reconnects": len(kns)})
 }
 
 // ---------------------------------------------------------------- ban-history
@@ -834,9 +904,146 @@ func banHistoryFamily(c *Case) {
 	c.Sample(map[string]any{"family": "ban-history", "adds": adds, "restarts": reloads, "addresses": len(ips)})
 }
 
+// ---------------------------------------------------------------- concurrent-bans
+
+// K concurrent ban requests for different addresses (each client connection has its own goroutine
+// in the server), several rounds, restarts in between: every acknowledged ban must be in the file
+// a fresh NewBanFile loads, and the file must load.
+func concurrentBansFamily(c *Case) {
+	r := c.R
+	dir, err := os.MkdirTemp("/var/tmp", "mobius-verif-cban-")
+	if err != nil {
+		c.Dist("skipped/fixture")
+		return
+	}
+	defer os.RemoveAll(dir)
+	path := filepath.Join(dir, "Banlist.yaml")
+	bf, err := mobius.NewBanFile(path)
+	if err != nil {
+		c.Violation("ban-file-unloadable", "NewBanFile fails on an absent file")
+		return
+	}
+	base := time.Now()
+	ref := map[string]banEntry{}
+	var order []string
+	var hist []string
+	rounds := 5 + r.Intn(9)
+	total, unack := 0, 0
+	check := func(where string) bool {
+		nb, err := mobius.NewBanFile(path)
+		if err != nil {
+			c.Note("where", where)
+			c.Note("load_error", err.Error())
+			c.Note("bans_acknowledged", total-unack)
+			c.Violation("ban-file-unloadable", "after concurrent ban requests the ban file does not load in a fresh instance (the server would not start)")
+			return false
+		}
+		for _, ip := range order {
+			e := ref[ip]
+			listed, until := nb.IsBanned(ip)
+			ok := listed && ((e.Perm && until == nil) || (!e.Perm && until != nil && until.Equal(e.Until)))
+			if !ok {
+				c.Note("where", where)
+				c.Note("address", ip)
+				c.Note("expected_permanent", e.Perm)
+				c.Note("read_back", fmt.Sprint(listed, until))
+				c.Note("bans_acknowledged", total-unack)
+				c.Violation("concurrent-ban-lost", "a ban acknowledged by BanFile.Add while other bans were being saved is missing (or different) after a restart")
+				return false
+			}
+		}
+		bf = nb
+		return true
+	}
+	for round := 0; round < rounds; round++ {
+		k := 4 + r.Intn(5)
+		ips := ipPool(r, k)
+		ents := make([]banEntry, k)
+		ptrs := make([]*time.Time, k)
+		for i := range ips {
+			ents[i] = banEntry{Listed: true}
+			if r.Chance(35) {
+				ents[i].Perm = true
+			} else {
+				ents[i].Until = base.Add(banDeltas[r.Intn(len(banDeltas))] + time.Duration(r.Intn(1000000000)))
+				u := ents[i].Until
+				ptrs[i] = &u
+			}
+		}
+		errs := make([]error, k)
+		start := make(chan struct{})
+		var wg sync.WaitGroup
+		cur := bf
+		for i := range ips {
+			wg.Add(1)
+			go func(i int) {
+				defer wg.Done()
+				<-start
+				errs[i] = cur.Add(ips[i], ptrs[i])
+			}(i)
+		}
+		close(start)
+		wg.Wait()
+		for i, ip := range ips {
+			total++
+			if errs[i] != nil {
+				// not acknowledged: the handler only logs this; nothing is required of it afterwards
+				unack++
+				delete(ref, ip)
+				continue
+			}
+			if _, seen := ref[ip]; !seen {
+				order = append(order, ip)
+			}
+			ref[ip] = ents[i]
+			kk, u := "p", int64(0)
+			if !ents[i].Perm {
+				kk, u = "t", ents[i].Until.UnixNano()
+			}
+			hist = append(hist, "a", hx([]byte(ip)), kk, fmt.Sprint(u))
+		}
+		// drop addresses whose newest request was not acknowledged from the list to verify
+		var keep []string
+		for _, ip := range order {
+			if _, ok := ref[ip]; ok {
+				keep = append(keep, ip)
+			}
+		}
+		order = keep
+		if r.Chance(30) {
+			if !check(fmt.Sprintf("restart after round %d", round+1)) {
+				return
+			}
+			hist = append(hist, "r")
+		}
+	}
+	if !check("final restart") {
+		return
+	}
+	c.Evals(total)
+	// the reference store of the model (any order of the concurrent, distinct-address Adds gives this)
+	for i, ip := range order {
+		if i%4 != 0 {
+			continue
+		}
+		e := ref[ip]
+		want := "entry=permanent"
+		if !e.Perm {
+			want = fmt.Sprintf("entry=until:%d", e.Until.UnixNano())
+		}
+		h := c.O.Ask(fmt.Sprintf("banhist %s %d %s r", hx([]byte(ip+":1")), base.UnixNano(), strings.Join(hist, " ")))
+		c.Corr("concurrent-history-entry", want, strings.Fields(h + " x x")[1], false)
+	}
+	if unack > 0 {
+		c.Dist("concurrent/unacknowledged-add")
+	}
+	c.Nontrivial(strings.Join(hist, " "))
+	c.Sample(map[string]any{"family": "concurrent-bans", "rounds": rounds, "bans": total, "unacknowledged": unack})
+}
+
 func init() {
 	props["C17"] = func(x *Ctx) {
-		x.rule = "gate-expiry: per case one real server, 4-6 distinct IPv4 addresses (35% textual neighbours: a.b.c.d vs a.b.c.d0 / 1a.b.c.d / last octet+1), 0..2n ban operations (30% permanent; temporary with expiry now +- {3s,5s,20s,1m,29m,30m,31m,1h,24h,400d}, newest wins) through BanFile.Add or by writing Banlist.yaml and loading it, 25% followed by a restart (fresh NewBanFile); then one connection per address (handshake + guest login + keep-alive / nothing / garbage / partial login), all concurrently. disconnect-ban: administrator, target and bystander logged in over the wire from distinct IPv4 addresses; disconnect request with option none/0/1/2/3; reconnects from the target's and another address, half of them after a restart. ban-history: 1..14 Add/restart operations over 2-5 addresses, every address queried after every step. non-trivial = at least one listed address is knocked on / a ban option case / a history with both an Add and a restart; distinct = distinct histories and address sets"
+		x.rule = "gate-expiry: per case one real server, 4-6 distinct IPv4 addresses (35% textual neighbours: a.b.c.d vs a.b.c.d0 / 1a.b.c.d / last octet+1), 0..2n ban operations (30% permanent; temporary with expiry now +- {3s,5s,20s,1m,29m,30m,31m,1h,24h,400d}, newest wins) through BanFile.Add or by writing Banlist.yaml and loading it, 25% followed by a restart (fresh NewBanFile); then one connection per address (handshake + guest login + keep-alive / nothing / garbage / partial login), all concurrently. disconnect-ban: administrator, target and bystander logged in over the wire from distinct IPv4 addresses; disconnect request with option none/0/1/2/3; reconnects from the target's and another address, half of them after a restart. disconnect-ban additionally: in 60% the target's address already has an entry (expired temporary / running temporary / permanent, added or written into the ban file) that the request must overwrite (a plain disconnect must leave it). ban-history: 1..14 Add/restart operations over 2-5 addresses, every address queried after every step. concurrent-bans: 5..13 rounds of 4..8 simultaneous BanFile.Add calls for distinct addresses, 30% restarts between rounds, final restart: the file must load and hold every acknowledged ban. non-trivial = at least one listed address is knocked on / a ban option case / a history with both an Add and a restart; distinct = distinct histories and address sets"
 		x.assume = []string{
 			"expiry instants are kept at least 3 s away from the instant of the connection (the decision near the boundary depends on scheduling)",
 			"the 30-minute duration is checked as: stored expiry within [request sent, reply received] + 30 min; the expiry itself is exercised with entries placed directly in the ban list",
@@ -846,5 +1053,6 @@ func init() {
 		x.Add(&Family{Name: "gate-expiry", Quick: 176, Thor: 3000, Run: gateExpiryFamily})
 		x.Add(&Family{Name: "disconnect-ban", Quick: 64, Thor: 1200, Run: disconnectFamily})
 		x.Add(&Family{Name: "ban-history", Quick: 500, Thor: 20000, Run: banHistoryFamily})
+		x.Add(&Family{Name: "concurrent-bans", Quick: 60, Thor: 1500, Run: concurrentBansFamily})
 	}
 }
